@@ -7,7 +7,16 @@ FUNCTIONS = ['uxarray.grid.grid.Grid.face_areas',
     'uxarray.grid.grid.Grid.get_kd_tree',
     'uxarray.grid.grid.Grid.to_linecollection',
     'uxarray.grid.grid.Grid.to_polycollection',
-    'uxarray.io._ugrid._encode_ugrid']
+    'uxarray.io._ugrid._encode_ugrid',
+    'uxarray.grid.neighbors.BallTree.coordinates.setter@value=nodes',
+    'uxarray.grid.neighbors.BallTree.coordinates.setter@value=face centers',
+    'uxarray.grid.neighbors.BallTree.coordinates.setter@value=edge centers',
+    'uxarray.grid.neighbors.BallTree.coordinates.setter@value=bogus',
+    'uxarray.grid.neighbors.KDTree.coordinates.setter@value=nodes',
+    'uxarray.grid.neighbors.KDTree.coordinates.setter@value=face centers',
+    'uxarray.grid.neighbors.KDTree.coordinates.setter@value=edge centers',
+    'uxarray.grid.neighbors.KDTree.coordinates.setter@value=bogus',
+    'uxarray.grid.grid.Grid.compute_face_areas']
 STANDINS = ["histories"]
 ASSUMPTIONS = []
 EXPLANATION = ""
